@@ -87,6 +87,19 @@ CHECKS = {
             "witnesses, random schedules, cancellation sweeps and bursts of 4-6 concurrent macros are recorded from the code "
             "and validated by TLC against P_C08.",
             "5 C08", TECH, BOUNDS),
+    "C09": ("model_checking",
+            "TLC checks L1 (Layout.tla chords v1: HandleChord / Decompose; ChordsV2.tla: chord.rs operator by operator with the real "
+            "capacities, hooked into Layout event / tick; Kanata.tla) against the monitor P_C09 (accounting: every chord output consumes a "
+            "fresh press of each of its keys, nothing fires twice, no participant is also delivered individually, every press is accounted "
+            "for at a settled idle point; presses on a layer where a chord is disabled never fire it; the action is not released while its "
+            "release rule says held and is released within a slack afterwards; in the sharp zone the set pressed up to the window end / a "
+            "release / a non-extending key / an unambiguous completion decides the outcome independently of press order, on that tick; v1 "
+            "undefined sets decompose into the greedy largest-prefix sub-chords in press order) per chord table for every schedule within "
+            "the bounds; every model transition is replayed on the real code; a TLC-enumerated schedule family (spec/Sched_C09.tla: every "
+            "key subset x press permutation x gaps {0,T-1,T,T+1} x release permutation x foreign key at every position x held layer, 2-5 "
+            "keys) and random episodes are recorded from the code and validated by TLC against P_C09.",
+            "5 C09", TECH, BOUNDS + "; v2 tables with a 3rd/4th key depth-bounded (15-25 steps); v2 undefined sets: only the accounting is "
+            "claimed; chord actions that are tap-hold / one-shot / macros and (include ...) chord files not covered"),
     "C10": ("translation_validation",
             "The programs are switch conditions / case lists written as configuration text. TLC enumerates every expression shape "
             "up to the node bound over leaf triples and every truth assignment, evaluates the documented meaning (Switch.tla Denote / "
